@@ -907,7 +907,8 @@ LEVEL_TEXT = ('Exploration by runtime monitoring: every FluxBinner.bindown execu
               'under permutation of native and of target rows); SimpleBinner executions are decided against the plain '
               'mean between target mid-points, NativeBinner against identity, bin_model against its delegation. Inputs '
               'outside the quantifier (unordered native bins, edge points for the histogram binner) are counted, not '
-              'judged. Held = held on the recorded executions.')
+              'judged. Held = held on the recorded executions.'
+              ' Results the caller keeps and work arrays it re-uses are followed by an ownership ledger (vmon/own.py).')
 LEVEL_NOTE = ('Trusted: refmodel.overlap_mean (self-tested each run) and the reading that a native bin is [c-w/2, c+w/2]. '
               'Two mechanisms of the unchanged tree are recognised as known findings from the flags of the failing call '
               '(shuffled native rows with non-uniform explicit widths; 2-D spectrum with an error array).')
